@@ -173,6 +173,33 @@ def encode (env : Env) : Nat → Ty → Val → Builder → Outcome Builder
       else (match hlToDict v with
         | some d => encode env fuel (.dictE (.uint 16) (.prim .any)) d b
         | none => .err "bad value")
+    | .dictAugE _ _ x =>
+      -- HashmapAugE.MarshalTLB: Maybe ^(HashmapAug) + extra; HashmapAug.MarshalTLB is "not implemented", so only the
+      -- empty dictionary can be written
+      (match v with
+      | .cons ks (.cons _ (.cons xv .nil)) =>
+        (match ks with
+        | .nil => do
+          let b ← b.writeBit false
+          encode env fuel x xv b
+        | _ => .err "not implemented")
+      | _ => .err "bad value")
+    | .dictAug _ _ _ => .err "not implemented"
+    | .binTree _ => .err "BinTree marshaling not implemented"
+    | .custom id body aux =>
+      if id = "tlb.McStateExtraOther" then
+        -- McStateExtraOther.MarshalTLB mirrors the decoder: block_create_stats only when flags == 1
+        (match v, aux with
+        | .cons (.int flags) (.cons a (.cons p (.cons c (.cons d (.cons e .nil))))),
+          .struct (.cons _ _ _ (.cons _ _ vi (.cons _ _ pb (.cons _ _ akb (.cons _ _ lkb (.cons _ _ bcs .nil)))))) => do
+          let b ← b.writeUint flags.toNat 16
+          let b ← encode env fuel vi a b
+          let b ← encode env fuel pb p b
+          let b ← encode env fuel akb c b
+          let b ← encode env fuel lkb d b
+          if flags = 1 then encode env fuel bcs e b else .ok b
+        | _, _ => .err "bad value")
+      else encode env fuel body v b
     | .encErr _ => .err "marshaling not implemented"
     | .opaque _ => .err "unmodelled"
 
